@@ -203,6 +203,7 @@ func c01Shape(book []vPRec, m vResolved) (labels []string, nontrivial bool) {
 
 func checkC01(c c01Case, ctx *vCtx) *vFailure {
 	book := c.Book.Parsed()
+	vNoDuplicateHeads(book)
 	m := vModelResolve(book)
 	if m.Cyclic || m.HMax >= c.N {
 		vFault("C01 generator produced a book outside the domain (cyclic=%v hmax=%d N=%d)", m.Cyclic, m.HMax, c.N)
@@ -433,8 +434,19 @@ func vIsDepthError(msg string) bool {
 	return strings.Contains(l, "depth")
 }
 
+func vNoDuplicateHeads(book []vPRec) {
+	seen := map[string]bool{}
+	for _, r := range book {
+		if seen[r.Head] {
+			vFault("generator produced a book with the heading %q twice (outside the domain: which one wins is not stated)", r.Head)
+		}
+		seen[r.Head] = true
+	}
+}
+
 func checkC11(c c11Case, ctx *vCtx) *vFailure {
 	book := c.Book.Parsed()
+	vNoDuplicateHeads(book)
 	m := vModelResolve(book)
 	wantFail := m.Cyclic || m.HMax >= c.N
 	ctx.Label(c.Shape)
@@ -600,7 +612,7 @@ func genC11(t *rapid.T) c11Case {
 		recs = book.Recs
 		// force the depth: add a chain of length maxd in half of the cases
 		if rapid.Bool().Draw(t, "force") {
-			recs = append(recs, c11Chain("q", maxd)...)
+			recs = append(recs, c11Chain("q=", maxd)...) // "=" never occurs in generated tame names: no duplicate headings
 		}
 	default: // cycles
 		c.Shape = "cycle"
